@@ -86,7 +86,7 @@ def _record_classes(record, classes: list) -> None:
 
 TYPE_ORDER = ["source", "gene", "CDS", "PFAM_domain", "aSDomain", "CDS_motif", "aSModule", "subregion", "protocluster",
               "cand_cluster", "region", "proto_core"]
-SECTION_ORDER = ["cds_order", "genes", "domain_names", "modules", "subregions", "protoclusters", "candidates",
+SECTION_ORDER = ["cds_order", "genes", "domain_names", "domains", "modules", "subregions", "protoclusters", "candidates",
                  "regions", "cds", "cds_functions", "prepeptides"]
 
 
